@@ -126,7 +126,7 @@ func rulesC11(c *Ctx) {
 						if ls.IsField(y, userID) {
 							other = x
 						}
-						if s, isC := ls.ConstString(other); isC && s == "" {
+						if s, isC := ls.reachingConstString(g, other); isC && s == "" {
 							if op == token.NEQ {
 								return sc.hasOwner
 							}
@@ -288,7 +288,7 @@ func rulesC11(c *Ctx) {
 					c.Check(!after, key, f, call, "a new id is minted only on the path that did not look up an existing session")
 				case "(*StreamableHTTPHandler).serveStateless":
 					guards := g.GuardsAt(v)
-					c.Check(hasAtom(guards, func(a Atom) bool { return a.Val && f.ObjOf(a.E) == compatFlagVar(f) && compatFlagVar(f) != nil }), key, f, call, "stateless: ids exist only under the allowsessionsinstateless compatibility switch (guards: %s)", atomsString(guards))
+					c.Check(underCompatSwitch(f, guards), key, f, call, "stateless: ids exist only under the allowsessionsinstateless compatibility switch (guards: %s)", atomsString(guards))
 				default:
 					c.Fail(key, f, call, "unexpected caller of GetSessionID")
 				}
@@ -720,7 +720,7 @@ func rulesC11(c *Ctx) {
 			}
 			n++
 			guards := g.GuardsAt(g.VertexOf(id))
-			c.Check(hasAtom(guards, func(a Atom) bool { return a.Val && f.ObjOf(a.E) == compatFlagVar(f) && compatFlagVar(f) != nil }), "serveStateless:header-read#"+itoa(n), f, id, "the session-id header is read only under the compatibility switch (guards: %s)", atomsString(guards))
+			c.Check(underCompatSwitch(f, guards), "serveStateless:header-read#"+itoa(n), f, id, "the session-id header is read only under the compatibility switch (guards: %s)", atomsString(guards))
 		})
 		// the transport's SessionID is the local that stays "" on the default path
 		var sidVar types.Object
@@ -735,7 +735,12 @@ func rulesC11(c *Ctx) {
 				if _, isDecl := w.(*ast.ValueSpec); isDecl {
 					continue
 				}
-				if !hasAtom(g.GuardsAt(g.VertexOf(w)), func(a Atom) bool { return a.Val && f.ObjOf(a.E) == compatFlagVar(f) && compatFlagVar(f) != nil }) {
+				if as, isAs := w.(*ast.AssignStmt); isAs && len(as.Rhs) == 1 {
+					if sv, isC := f.ConstString(as.Rhs[0]); isC && sv == "" {
+						continue // "" is no session id
+					}
+				}
+				if !underCompatSwitch(f, g.GuardsAt(g.VertexOf(w))) {
 					okSid = false
 				}
 			}
@@ -811,6 +816,27 @@ func rulesC11(c *Ctx) {
 	})
 	c.Import("R-C11-9", "a dead or foreign session id is refused with a status the client can see: no return of the session-serving HTTP functions leaves the response untouched (a forgotten http.Error is an empty 200 — the request looks accepted)", "C12", "R-C12-10", func(k string) bool {
 		return strings.Contains(k, "lookupSession") || strings.Contains(k, "serveStateful") || strings.Contains(k, "serveStateless") || strings.Contains(k, "servePOST") || strings.Contains(k, "serveGET") || strings.Contains(k, "functions holding") || strings.Contains(k, "their returns")
+	})
+}
+
+// underCompatSwitch: the guards establish that the MCPGODEBUG compatibility option is "1" — through the boolean local the
+// handler derives from it, or through a comparison of the option itself.
+func underCompatSwitch(f *Func, guards []Atom) bool {
+	flag := compatFlagVar(f)
+	return hasAtom(guards, func(a Atom) bool {
+		if flag != nil && a.Val && f.ObjOf(a.E) == flag {
+			return true
+		}
+		x, y, op, ok := binaryCmp(a.E)
+		if !ok {
+			return false
+		}
+		v, isV := f.ObjOf(x).(*types.Var)
+		sv, isC := f.ConstString(y)
+		if !isV || v.Pkg() == nil || v.Parent() != v.Pkg().Scope() || !isC || sv != "1" {
+			return false
+		}
+		return (op == token.EQL && a.Val) || (op == token.NEQ && !a.Val)
 	})
 }
 
